@@ -238,10 +238,11 @@ VAL, RET, CONT, BRK = "val", "ret", "cont", "brk"
 
 
 class Sym:
-    def __init__(self, fx, opaque=lambda path: False, inline_depth=4, models=None, krates=("proguard",)):
+    def __init__(self, fx, opaque=lambda path: False, inline_depth=4, models=None, krates=("proguard",), inline_mut=False):
         self.fx = fx
         self.opaque = opaque
         self.inline_depth = inline_depth
+        self.inline_mut = inline_mut      # also inline local helpers that take `&mut` places (not generic sinks)
         self.loops = {}       # id(loop node) -> dict(node, entry, paths)
         self._reserved = {}
         self._next_loop = 0
@@ -804,6 +805,9 @@ class Sym:
 
     def place_term(self, pl):
         if len(pl) > 3 and pl[3] is not None:
+            if pl[3][0] == "place":
+                # a `&mut` parameter bound to a caller's place (inlined helper): the same place
+                return ("place", pl[3][1], tuple(pl[3][2]) + tuple(pl[2]))
             return ("pl", pl[3], pl[2])
         return ("place", pl[1], pl[2])
 
@@ -975,13 +979,23 @@ class Sym:
         tgt = self.fx.by_dp.get(f.get("resolved_dp")) or self.fx.by_dp.get(f.get("dp"))
         if tgt and tgt in self.fx.bodies:
             b = self.fx.bodies[tgt]
+            mut_ok = not mut_idx or (self.inline_mut and all(vals[i][0] in ("place", "pl") for i in mut_idx)
+                                     and not any(re.match(r"^&mut [A-Z]\w*$", (p_.get("ty") or "")) for p_ in b["params"]))
             if b["krate"] in self.krates and not self.opaque(tgt) and tgt not in self.stack \
-                    and len(self.stack) <= self.inline_depth and not mut_idx and not has_loop(b):
+                    and len(self.stack) <= self.inline_depth and mut_ok and not has_loop(b):
                 res = self.eval_body(b, vals, St(conds=st.conds, effects=st.effects, n=st.n))
                 out = []
                 for s2, (k, v) in res:
                     s3 = st.copy()
                     s3.conds, s3.effects, s3.n = s2.conds, s2.effects, s2.n
+                    if mut_idx and len(s2.effects) > len(st.effects):
+                        # the callee worked on the caller's places through `&mut` parameters: what the caller knew about
+                        # those places is stale now
+                        s3.n += 1
+                        for i in mut_idx:
+                            pl = self.place_of(n["args"][i], s3)
+                            if pl is not None:
+                                s3 = self.write_place(s3, pl, ("after", ("inlined", short_path(tgt), s3.n), i))
                     out.append((s3, (VAL, v)))
                 return out
             path = tgt
